@@ -42,6 +42,13 @@ def aggregate_orders(rng, el, k):
         cand += [["district"], ["district", "county_fips"], ["county_fips", "postal_code"]]
     idx = rng.permutation(len(cand))[: k - 1]
     outs += [cand[i] for i in idx]
+    if el.meta.get("statewide_with_district"):
+        # a statewide office whose baseline also carries a (congressional) district column and whose config allows
+        # that aggregate: for this office "district" is one more finer aggregate, requested before or after the states
+        extra = [["postal_code", "district"], ["district", "postal_code"], ["postal_code", "county_fips", "district"],
+                 ["district", "unit", "postal_code"]]
+        j = rng.permutation(len(extra))[:2]
+        outs = outs[: max(1, k - 2)] + [extra[i] for i in j]
     return outs
 
 
@@ -54,7 +61,18 @@ def build(spec):
              feed_frac_reporting=float(rng.uniform(0.3, 0.7)), feed_n_unexpected=int(rng.choice([0, 1])),
              B=int(gen.choice(rng, [10, 20, 50])), lambda_=float(gen.choice(rng, [0.1, 1.0, 10.0])),
              aggregates=["postal_code"], fixed_effects={}, alphas=gen.random_alphas(rng))
+    swd = (not district) and i % 7 == 3
+    if swd:
+        o.update(feed_n_unexpected=0, allow_geo_county=False, rare_options=False)
     el, feed, status, call = cases_mod.build(spec["seed"], PROPERTY, i, o)
+    if swd and "district" not in el.pre.columns:
+        # every county lies in one of two districts of its state
+        codes = {c: str(1 + k % 2) for k, c in enumerate(sorted(el.pre.county_fips.astype(str).unique()))}
+        el.pre["district"] = el.pre.county_fips.astype(str).map(codes)
+        for sub in el.config[el.election_id]:
+            if "district" not in sub["aggregates"]:
+                sub["aggregates"] = [a for a in sub["aggregates"] if a != "unit"] + ["district", "unit"]
+        el.meta["statewide_with_district"] = True
     mp = call["model_parameters"]
     mode = int(rng.integers(0, 4))
     mp["agg_model_hard_threshold"] = mode in (0, 1)
@@ -122,14 +140,24 @@ def run_case(spec, inputs=None):
         out["counters"]["runs"] = out["counters"].get("runs", 0) + 1
         if exc is not None:
             info = harness.exc_info(exc)
-            V(f"C08/estimate-run-raised/{info['type']}", f"aggregates={aggs}: get_estimates raised {info['type']}: "
+            key = f"C08/estimate-run-raised/{info['type']}"
+            if (el.meta.get("statewide_with_district") and "district" in aggs and (lhs or rhs or stop)
+                    and isinstance(exc, BootstrapElectionModelException) and "do not exist" in str(exc)):
+                # mechanism of the known finding: the (state, district) groups of a statewide office are taken for the
+                # contests, so the call lists (which name states) are judged against them
+                key += "/statewide-office-with-district-aggregate"
+            V(key, f"aggregates={aggs}: get_estimates raised {info['type']}: "
               f"{info['msg']}", aggregates=aggs, exc=info)
             continue
         model = client.model
         try:
             ns = client.get_national_summary_votes_estimates(copy.deepcopy(weights), base, alphas)
         except Exception as e:  # noqa: BLE001
-            V(f"C08/summary-raised/{type(e).__name__}", f"aggregates={aggs}: national summary raised "
+            key = f"C08/summary-raised/{type(e).__name__}"
+            if (el.meta.get("statewide_with_district") and "district" in aggs and "postal_code" in aggs
+                    and aggs.index("district") > aggs.index("postal_code")):
+                key = "C08/summary-raised/statewide-office-with-district-aggregate"  # known finding, see below
+            V(key, f"aggregates={aggs}: national summary raised "
               f"{type(e).__name__}: {str(e)[:200]}", aggregates=aggs)
             continue
         out["counters"]["summaries"] = out["counters"].get("summaries", 0) + 1
@@ -272,8 +300,16 @@ def run_case(spec, inputs=None):
         for aggs, row in frames[1:]:
             out["counters"]["order_pairs"] = out["counters"].get("order_pairs", 0) + 1
             if row != ref_row:
-                V("C08/summary-depends-on-aggregates", f"summary after aggregates={aggs} is {row} but after "
+                key = "C08/summary-depends-on-aggregates"
+                if (el.meta.get("statewide_with_district") and "district" in aggs and "postal_code" in aggs
+                        and aggs.index("district") > aggs.index("postal_code")):
+                    # mechanism of the known finding: "district" computed after the states overwrites the contest state
+                    key += "/statewide-office-with-district-aggregate"
+                V(key, f"summary after aggregates={aggs} is {row} but after "
                   f"{ref_aggs} it is {ref_row}", a=aggs, b=ref_aggs)
+            elif el.meta.get("statewide_with_district") and "district" in aggs:
+                out["counters"]["statewide_district_lists_with_equal_summary"] = out["counters"].get(
+                    "statewide_district_lists_with_equal_summary", 0) + 1
     out["nontrivial"] = straddle
     out["sig"] = [bool(el.district), n, mode, bool(lhs or rhs), bool(stop), len(alphas), len(orders), weights is None]
     out["sets"]["modes"] = [mode]
